@@ -50,7 +50,14 @@
   `C01_job_object_extended`, `C01_kept_namespace`, `C01_call_via_objects`, `C01_addJob`, `C01_addJobs`,
   `C01_multicall_call`, `C01_multicall_reuse`, `C01_multicall_keeps_on_failure`;
   transports and server classes: `C01_over_wire` (= `C01_over_wire_full_statement`, composing C17 and C19);
-  satisfiability of the Backend laws: `C01_backend_exists`.
+  satisfiability of the Backend laws: `C01_backend_exists`;
+  the registry as a MUTABLE object over a history (JRV.Model.RegistryProg: register_function / del funcs[name] /
+  register_instance / setattr, delattr on instance objects / register_introspection_functions interleaved with
+  requests): `C01_registry_requests_leave_state`, `C01_registry_fresh_dispatcher` (a call after any program resolves as
+  on a fresh dispatcher holding the final registry), `C01_registry_static` (a fixed registry is the empty program),
+  what each operation does to what a name denotes (`C01_registry_function_wins/_other/_deleted`,
+  `C01_registry_instance_replaced`, `C01_registry_attribute_rebound/_deleted`, `C01_registry_list_methods_current`),
+  and `C01_single_after_program` / `C01_batch_after_program`.
   The companion theorems of the extracted facts (`C01_gen_*`) are in JRV/Properties/C01Gen.lean; this file does
   not import JRV.Generated.
 -/
@@ -61,6 +68,7 @@ import JRV.Properties.C14
 import JRV.Properties.C17
 import JRV.Properties.C19
 import JRV.Lemmas.BackendInstance
+import JRV.Model.RegistryProg
 
 set_option linter.unusedSimpArgs false
 set_option linter.unusedVariables false
@@ -2445,5 +2453,349 @@ theorem C01_backend_exists : Nonempty Backend := ⟨BackendInstance.godel⟩
 /-- … so, for instance, `C01_request` read at that backend is a statement without any assumption on the text layer. -/
 example := C01_request BackendInstance.godel
 example := C01_batch_mixed BackendInstance.godel
+
+section RegistryPrograms
+open JRV.RegProg
+
+/- ---------- the registry as a mutable object over a history (JRV.Model.RegistryProg) ---------- -/
+
+private theorem lookup_setKey_self {α : Type} (k : String) (v : α) (l : List (String × α)) :
+    (setKey k v l).lookup k = some v := by
+  simp [setKey, List.lookup]
+
+private theorem lookup_filter_ne {α : Type} (k k' : String) (hne : k' ≠ k) (l : List (String × α)) :
+    (l.filter (fun e => e.1 != k)).lookup k' = l.lookup k' := by
+  induction l with
+  | nil => rfl
+  | cons x xs ih =>
+    obtain ⟨a, b⟩ := x
+    by_cases ha : a = k
+    · subst ha
+      have : (k' == a) = false := by simpa using hne
+      simp [List.filter, List.lookup, this, ih]
+    · have h1 : (a != k) = true := by simpa using ha
+      simp only [List.filter, h1, List.lookup]
+      split <;> simp_all
+
+private theorem lookup_filter_self {α : Type} (k : String) (l : List (String × α)) :
+    (l.filter (fun e => e.1 != k)).lookup k = Option.none := by
+  induction l with
+  | nil => rfl
+  | cons x xs ih =>
+    obtain ⟨a, b⟩ := x
+    by_cases ha : a = k
+    · subst ha; simp [List.filter, ih]
+    · have h1 : (a != k) = true := by simpa using ha
+      have h2 : (k == a) = false := by simpa using (fun h : k = a => ha h.symm)
+      simp [List.filter, h1, List.lookup, h2, ih]
+
+private theorem lookup_setKey_ne {α : Type} (k k' : String) (hne : k' ≠ k) (v : α) (l : List (String × α)) :
+    (setKey k v l).lookup k' = l.lookup k' := by
+  have : (k' == k) = false := by simpa using hne
+  simp [setKey, List.lookup, this, lookup_filter_ne k k' hne]
+
+private theorem lookup_map_snd {α β : Type} (f : α → β) (k : String) (l : List (String × α)) :
+    (l.map fun e => (e.1, f e.2)).lookup k = (l.lookup k).map f := by
+  induction l with
+  | nil => rfl
+  | cons x xs ih =>
+    obtain ⟨a, b⟩ := x
+    simp only [List.map, List.lookup]
+    split <;> simp_all
+
+/-- What a name denotes in a state: the look-up of `_dispatch` on the registry the state denotes NOW. -/
+def denotes (st : DispState) (name : String) : Option (Target × Callable) := resolves (view st) name
+
+private theorem funcs_lookup_view (st : DispState) (n : String) :
+    (view st).funcs.lookup n = (st.funcs.lookup n).map (materialise st) := by
+  simp [view, lookup_map_snd]
+
+/-- The look-up of `_dispatch` in a state: `funcs` first, then the instance registered now. -/
+theorem denotes_eq (st : DispState) (n : String) :
+    denotes st n =
+      match st.funcs.lookup n with
+      | some e => some (.func, materialise st e)
+      | Option.none => resolves { funcs := [], inst := st.instance } n := by
+  simp only [denotes, resolves, funcs_lookup_view]
+  cases st.funcs.lookup n <;> simp [view, List.lookup]
+
+private theorem instance_setFuncs (st : DispState) (f : List (String × Entry)) :
+    ({ st with funcs := f } : DispState).instance = st.instance := rfl
+
+/-- A request leaves the registry as it found it: after ANY history of registry operations and requests the state is
+    the one the registry operations alone produce — which names were called, how often, with what outcome, is
+    immaterial. -/
+theorem C01_registry_requests_leave_state (K : Codec) (base : Peer) (evs : List Ev) (st : DispState) :
+    (runEvs K base st evs).1 = applyOps st (regOpsOf evs) := by
+  induction evs generalizing st with
+  | nil => rfl
+  | cons ev rest ih =>
+    cases ev with
+    | reg op => simp [runEvs, stepEv, regOpsOf, applyOps, ih]
+    | request text => simp [runEvs, stepEv, regOpsOf, ih]
+
+private theorem runEvs_append (K : Codec) (base : Peer) (evs evs' : List Ev) (st : DispState) :
+    runEvs K base st (evs ++ evs') =
+      ((runEvs K base (runEvs K base st evs).1 evs').1, (runEvs K base st evs).2 ++ (runEvs K base (runEvs K base st evs).1 evs').2) := by
+  induction evs generalizing st with
+  | nil => simp [runEvs]
+  | cons ev rest ih =>
+    simp only [List.cons_append, runEvs, ih]
+    cases (stepEv K base st ev).2 <;> simp
+
+/-- A call after any program resolves exactly as on a FRESH dispatcher holding the final registry: the answer to a
+    request that follows a history `evs` (registry operations interleaved with any requests) is the answer of a
+    dispatcher on which only the registry operations of `evs` were performed and nothing was ever called. -/
+theorem C01_registry_fresh_dispatcher (K : Codec) (base : Peer) (evs : List Ev) (st : DispState) (text : String) :
+    runEvs K base st (evs ++ [.request text]) =
+      (applyOps st (regOpsOf evs),
+       (runEvs K base st evs).2 ++ [serve K (peerOf base (applyOps st (regOpsOf evs))) text]) := by
+  rw [runEvs_append]
+  simp [runEvs, stepEv, C01_registry_requests_leave_state]
+
+/-- The dispatcher of the other C01 theorems — a registry given once and for all — is the empty program. -/
+theorem C01_registry_static (reg : Registry) : view (DispState.ofRegistry reg) = reg := by
+  obtain ⟨funcs, inst⟩ := reg
+  have hf : (List.map (fun e : String × Entry => (e.1, materialise (DispState.ofRegistry { funcs := funcs, inst := inst }) e.2))
+      (List.map (fun e : String × Callable => (e.1, Entry.user e.2)) funcs)) = funcs := by
+    rw [List.map_map]
+    conv => rhs; rw [← List.map_id funcs]
+    apply List.map_congr_left
+    intro e _
+    simp [materialise]
+  cases inst with
+  | none => simp [view, DispState.ofRegistry, DispState.instance] at hf ⊢; exact hf
+  | some i => simp [view, DispState.ofRegistry, DispState.instance] at hf ⊢; exact hf
+
+/-- `register_function(f, name)`: from now on the name denotes `f` — whatever it denoted before (another function, an
+    attribute of the instance, nothing) and however often it was called before. -/
+theorem C01_registry_function_wins (st : DispState) (name : String) (c : Callable) :
+    denotes (applyOp' st (.registerFunction name c)) name = some (.func, c) := by
+  simp [denotes, resolves, applyOp', applyOp, pure, Except.pure, funcs_lookup_view, lookup_setKey_self, materialise]
+
+/-- … and every other name denotes what it did: a registered function stays, a name the instance answers is answered
+    by the same instance. -/
+theorem C01_registry_function_other (st : DispState) (name other : String) (c : Callable) (hne : other ≠ name) :
+    (∀ c', st.funcs.lookup other = some (.user c') →
+      denotes (applyOp' st (.registerFunction name c)) other = some (.func, c')) ∧
+    (st.funcs.lookup other = Option.none →
+      denotes (applyOp' st (.registerFunction name c)) other = denotes st other) := by
+  constructor
+  · intro c' h
+    simp [denotes, resolves, applyOp', applyOp, pure, Except.pure, funcs_lookup_view, lookup_setKey_ne _ _ hne, h, materialise]
+  · intro h
+    simp [denotes_eq, applyOp', applyOp, pure, Except.pure, lookup_setKey_ne _ _ hne, h, instance_setFuncs]
+
+/-- `del funcs[name]`: the name denotes what the registered instance makes of it (nothing, without an instance). -/
+theorem C01_registry_function_deleted (st : DispState) (name : String) (h : hasKey name st.funcs = true) :
+    denotes (applyOp' st (.deleteFunction name)) name = resolves { funcs := [], inst := st.instance } name := by
+  simp [denotes_eq, applyOp', applyOp, h, pure, Except.pure, delKey, lookup_filter_self, instance_setFuncs]
+
+/-- `register_instance(obj)`: a name that is not a registered function denotes what it denotes on `obj` — nothing of
+    the instance registered before remains. -/
+theorem C01_registry_instance_replaced (st : DispState) (k : Nat) (i : Instance) (name : String)
+    (hk : st.objs[k]? = some i) (hf : st.funcs.lookup name = Option.none) :
+    denotes (applyOp' st (.registerInstance (some k))) name = resolves { funcs := [], inst := some i } name := by
+  have hlt : k < st.objs.length := by
+    rcases Nat.lt_or_ge k st.objs.length with h | h
+    · exact h
+    · simp [List.getElem?_eq_none h] at hk
+  have hi : st.objs[k] = i := by simpa [List.getElem?_eq_getElem hlt] using hk
+  simp [denotes_eq, applyOp', applyOp, hlt, pure, Except.pure, hf, DispState.instance, hk, hi]
+
+/-- No segment of the path starts with an underscore (the only paths `resolve_dotted_attribute` walks). -/
+def publicPath (path : List String) : Bool := path.all fun seg => !seg.startsWith "_"
+
+/-- `setattr` on (an attribute of) the instance: the dotted name of that attribute denotes the NEW value from now on
+    — for a path of any length, whatever was there before. -/
+theorem C01_registry_attribute_rebound (path : List String) (a : Attr) :
+    ∀ (ch ch' : List (String × Attr)) (c : Option Callable), publicPath path = true →
+      setPath ch path a = .ok ch' → resolveSegs path (.node c ch') = some a := by
+  induction path with
+  | nil => intro ch ch' c _ h; simp [setPath, raise] at h
+  | cons seg rest ih =>
+    intro ch ch' c hp h
+    have hseg : seg.startsWith "_" = false := by
+      simp only [publicPath, List.all_cons, Bool.and_eq_true, Bool.not_eq_true'] at hp; exact hp.1
+    cases rest with
+    | nil =>
+      simp only [setPath, pure, Except.pure, Except.ok.injEq] at h
+      subst h
+      simp [resolveSegs, hseg, Attr.children, lookup_setKey_self]
+    | cons seg2 rest2 =>
+      have hp2 : publicPath (seg2 :: rest2) = true := by
+        simp only [publicPath, List.all_cons, Bool.and_eq_true] at hp ⊢; exact hp.2
+      simp only [setPath] at h
+      cases hl : ch.lookup seg with
+      | none => simp [hl, raise] at h
+      | some child =>
+        cases child with
+        | noneValue => simp [hl, raise] at h
+        | node c0 sub =>
+          simp only [hl] at h
+          cases hs : setPath sub (seg2 :: rest2) a with
+          | error e => simp [hs] at h
+          | ok sub' =>
+            simp only [hs, pure, Except.pure, Except.ok.injEq] at h
+            subst h
+            have := ih sub sub' c0 hp2 hs
+            simp only [resolveSegs, hseg, Bool.false_eq_true, ↓reduceIte, Attr.children, lookup_setKey_self]
+            exact this
+
+/-- `delattr`: the dotted name denotes nothing afterwards (the server answers "unknown method"). -/
+theorem C01_registry_attribute_deleted (path : List String) :
+    ∀ (ch ch' : List (String × Attr)) (c : Option Callable),
+      delPath ch path = .ok ch' → resolveSegs path (.node c ch') = Option.none := by
+  induction path with
+  | nil => intro ch ch' c h; simp [delPath, raise] at h
+  | cons seg rest ih =>
+    intro ch ch' c h
+    cases rest with
+    | nil =>
+      simp only [delPath] at h
+      split at h
+      · simp only [pure, Except.pure, Except.ok.injEq] at h
+        subst h
+        simp only [resolveSegs, Attr.children, delKey, lookup_filter_self]
+        split <;> rfl
+      · simp [raise] at h
+    | cons seg2 rest2 =>
+      simp only [delPath] at h
+      cases hl : ch.lookup seg with
+      | none => simp [hl, raise] at h
+      | some child =>
+        cases child with
+        | noneValue => simp [hl, raise] at h
+        | node c0 sub =>
+          simp only [hl] at h
+          cases hs : delPath sub (seg2 :: rest2) with
+          | error e => simp [hs] at h
+          | ok sub' =>
+            simp only [hs, pure, Except.pure, Except.ok.injEq] at h
+            subst h
+            have := ih sub sub' c0 hs
+            simp only [resolveSegs, Attr.children, lookup_setKey_self]
+            split
+            · rfl
+            · exact this
+
+private theorem mem_insertSorted (s x : String) (l : List String) : x ∈ insertSorted s l ↔ x = s ∨ x ∈ l := by
+  induction l with
+  | nil => simp [insertSorted]
+  | cons y ys ih =>
+    simp only [insertSorted]
+    split
+    · simp
+    · split
+      · rename_i _ heq
+        have : s = y := by simpa using heq
+        subst this
+        simp
+      · simp only [List.mem_cons, ih]
+        constructor
+        · rintro (h | h | h) <;> simp [h]
+        · rintro (h | h | h) <;> simp [h]
+
+private theorem mem_sortedSet (x : String) (l : List String) : x ∈ sortedSet l ↔ x ∈ l := by
+  induction l with
+  | nil => simp [sortedSet]
+  | cons y ys ih =>
+    have : sortedSet (y :: ys) = insertSorted y (sortedSet ys) := rfl
+    rw [this, mem_insertSorted, ih]; simp
+
+private theorem hasKey_iff_mem {α : Type} (k : String) (l : List (String × α)) :
+    hasKey k l = true ↔ k ∈ l.map (·.1) := by
+  induction l with
+  | nil => simp [hasKey, List.lookup]
+  | cons x xs ih =>
+    obtain ⟨a, b⟩ := x
+    simp only [hasKey, List.lookup, List.map, List.mem_cons] at ih ⊢
+    by_cases hka : k = a
+    · subst hka; simp
+    · have : (k == a) = false := by simpa using hka
+      simp [this, hka, ih]
+
+/-- `system.listMethods` lists what is registered NOW: the value the bound method returns when it is called in state
+    `st` is the sorted list of exactly the names of `funcs` and the public callable attributes of the instance
+    registered at that moment (an instance with its own `_dispatch` contributes nothing) — not the names that were
+    registered, or called, earlier. -/
+theorem C01_registry_list_methods_current (st : DispState) (p : PyVal) :
+    (materialise st .listMethods).body p = .ret (.list ((listedNames st).map PyVal.str)) ∧
+    ∀ n, n ∈ listedNames st ↔
+      (hasKey n st.funcs = true ∨ ∃ i, st.instance = some i ∧ i.dispatch = Option.none ∧ n ∈ publicMethods i) := by
+  refine ⟨rfl, fun n => ?_⟩
+  simp only [listedNames, mem_sortedSet, List.mem_append, hasKey_iff_mem]
+  cases hi : st.instance with
+  | none => simp
+  | some i =>
+    cases hd : i.dispatch with
+    | none => simp [hd]
+    | some d => simp [hd]
+
+/-- `C01_single` for a dispatcher with a history: after ANY interleaving `evs` of registry operations and requests,
+    `proxy.<path>(*args)` invokes exactly once the callable the name denotes in the registry the operations of `evs`
+    produce (`denotes`), with `args`, and returns its value — as if nothing had been called before. -/
+theorem C01_single_after_program (B : Backend) (hg : Gate20) (c : Proxy) (base : Peer) (h : History) (fresh : String)
+    (evs : List Ev) (st0 : DispState)
+    (path : List String) (args : List PyVal) (v : PyVal) (t : Target) (f : Callable)
+    (hcoff : c.cfg.useJsonclass = false) (hsoff : base.srv.cfg.useJsonclass = false)
+    (hsv : base.srv.cfg.version = 10 ∨ base.srv.cfg.version = 20)
+    (hcustom : base.srv.custom = Option.none) (hpool : base.srv.pool ≠ .full)
+    (hfresh : fresh ≠ "") (hpath : pathOk path = true) (hname : dottedName path ≠ "")
+    (hargs : args ≠ []) (hwf : (PyVal.tuple args).wfJson = true)
+    (hres : denotes (applyOps st0 (regOpsOf evs)) (dottedName path) = some (t, f))
+    (hbind : binds f.sig (.list (args.map normalise)) = true)
+    (hret : f.body (.list (args.map normalise)) = .ret v) (hv : v.wfJson = true) :
+    ∃ req rep, req ≠ "" ∧ rep ≠ "" ∧
+      Exchange B.codec (peerOf base (runEvs B.codec base st0 evs).1) h
+        (EndToEnd.call B.codec c (peerOf base (runEvs B.codec base st0 evs).1) h fresh path args []) req rep v.normalise
+        [.call t (.str (dottedName path)) (.list (args.map normalise))] := by
+  rw [C01_registry_requests_leave_state]
+  exact C01_single B hg c (peerOf base (applyOps st0 (regOpsOf evs))) h fresh path args v t f hcoff hsoff hsv hcustom hpool
+    hfresh hpath hname hargs hwf hres hbind hret hv
+
+/-- `C01_batch` likewise: every job of a batch sent after the history `evs` reaches the callable its name denotes NOW,
+    once, in job order; the iterator holds the returns of the non-notification jobs in job order. -/
+theorem C01_batch_after_program (B : Backend) (hg : Gate20) (c : Proxy) (m : McConfig) (base : Peer) (h : History)
+    (evs : List Ev) (st0 : DispState)
+    (fresh : Nat → String) (jobs : List Job) (tgt : Job → Target) (fn : Job → Callable) (ret : Job → PyVal)
+    (hcoff : c.cfg.useJsonclass = false) (hmoff : m.cfg.useJsonclass = false) (hsoff : base.srv.cfg.useJsonclass = false)
+    (hsv : base.srv.cfg.version = 10 ∨ base.srv.cfg.version = 20)
+    (hcustom : base.srv.custom = Option.none) (hpool : base.srv.pool = .absent)
+    (hfresh : ∀ i, fresh i ≠ "") (hne : jobs ≠ [])
+    (hall : ∀ j ∈ jobs, JobGood (view (applyOps st0 (regOpsOf evs))) tgt fn ret j) :
+    ∃ results,
+      (multicall B.codec c m (peerOf base (runEvs B.codec base st0 evs).1) h fresh jobs).value = .ok (.iterator results) ∧
+      iterAll results = .ok ((jobs.filter (fun j => !j.notify)).map (fun j => (ret j).normalise)) ∧
+      (multicall B.codec c m (peerOf base (runEvs B.codec base st0 evs).1) h fresh jobs).effects =
+        jobs.map (fun j => Effect.call (tgt j) (.str j.method) (serverParams j.params)) := by
+  rw [C01_registry_requests_leave_state]
+  obtain ⟨_, _, results, _, _, _, hval, hit, heff, _⟩ :=
+    C01_batch B hg c m (peerOf base (applyOps st0 (regOpsOf evs))) h fresh jobs tgt fn ret hcoff hmoff hsoff hsv hcustom hpool
+      hfresh hne hall
+  exact ⟨results, hval, hit, heff⟩
+
+/- Non-vacuity: a program in which the denotation of a name changes between two calls of it. -/
+private def exF (tag : Int) : Callable := { sig := { names := [], star := true }, body := fun _ => .ret (.int tag) }
+private def exObj (tag : Int) : Instance :=
+  { attrs := [("echo", .node (some (exF tag)) []), ("sub", .node Option.none [("echo", .node (some (exF (tag + 1))) [])])] }
+private def exProg : List Ev :=
+  [.reg (.newInstance (exObj 10)), .reg (.newInstance (exObj 20)), .reg (.registerInstance (some 0)),
+   .request "first call of sub.echo", .reg (.registerInstance (some 1)), .request "second call",
+   .reg (.setAttr 1 ["sub", "echo"] (.node (some (exF 30)) [])), .request "third call",
+   .reg (.registerFunction "sub.echo" (exF 40)), .reg (.delAttr 1 ["sub", "echo"]), .reg (.deleteFunction "sub.echo")]
+
+example : regOpsOf exProg =
+    [.newInstance (exObj 10), .newInstance (exObj 20), .registerInstance (some 0), .registerInstance (some 1),
+     .setAttr 1 ["sub", "echo"] (.node (some (exF 30)) []), .registerFunction "sub.echo" (exF 40), .delAttr 1 ["sub", "echo"],
+     .deleteFunction "sub.echo"] := rfl
+example : publicPath ["sub", "echo"] = true := by decide +kernel
+example : ∃ ch', setPath (exObj 20).attrs ["sub", "echo"] (.node (some (exF 30)) []) = .ok ch' := ⟨_, rfl⟩
+example : ∃ ch', delPath (exObj 20).attrs ["sub", "echo"] = .ok ch' := ⟨_, rfl⟩
+example : hasKey "sub.echo" (applyOp' {} (.registerFunction "sub.echo" (exF 40))).funcs = true := by
+  simp [applyOp', applyOp, pure, Except.pure, hasKey, setKey, List.lookup]
+example : sortedSet ["b", "a", "é", "a", "B"] = ["B", "a", "b", "é"] := by decide +kernel
+
+end RegistryPrograms
 
 end JRV.Props
